@@ -565,6 +565,8 @@ func genFacts(repo string) string {
 	pairList(&out, "sso_required_locals", localDefs(req, []string{"idpMetadata", "authNRequest", "sp"}))
 	pairList(&out, "sso_required_params", paramNames(req))
 	pairList(&out, "sso_required_call", callArgsThunk(funcDecl(files["sso.go"], "ssoHandleFunc"), "checkRequestRequiredContent"))
+	pairList(&out, "sso_time_call", callArgsThunk(req, "checkIfRequestTimeIsStillValid"))
+	pairList(&out, "logout_time_call", callArgsThunk(funcDecl(files["logout.go"], "logoutHandleFunc"), "checkIfRequestTimeIsStillValid"))
 	pairList(&out, "attrquery_destination_call", callArgsThunk(funcDecl(files["attribute_query.go"], "attributeQueryHandleFunc"), "verifyRequestDestinationOfAttrQuery"))
 	pairList(&out, "endpoint_absolute_src", returnExprs(funcDeclRecv(files["endpoint.go"], "Endpoint", "Absolute")))
 	pairList(&out, "endpoint_relative_src", returnExprs(funcDeclRecv(files["endpoint.go"], "Endpoint", "Relative")))
